@@ -31,7 +31,7 @@ CLAIMED = {
             "Trusted: the ~100-line RFC 6962 reference, SimKV's crash model (atomic loss of un-flushed writes; partial survival only without reset/fork in the window), SHA-256 from the sha2 crate."),
     "C07": ("da", "DESIGN.md §6 C07, §4.5",
             "deterministic simulation: seeded transaction streams compressed into one fault-injecting registry context (failing / pending / cancelled calls, key wrap-around, eviction, rollback and retry), decompressed block-wise against versioned snapshots in a seeded poll interleaving, judged field by field against the skip/restore contract",
-            "Seeded search over streams of 8–64 transactions of all six kinds sharing one registry whose key cursors wrap within the run; every acknowledged transaction is decompressed against the snapshot of its block and compared (kind, witnesses, predicate_gas_used, all fields with the 25 compress(skip) sites defaulted or restored, canonical bytes, id). Sampling, not enumeration: a clean batch is evidence, not proof.",
+            "Seeded search over streams of 8–64 transactions of all six kinds sharing one registry whose key cursors wrap within the run; every acknowledged transaction is decompressed against the snapshot of its block and compared (kind, witnesses, predicate_gas_used, all fields with the 23 compress(skip) field sites defaulted or restored, canonical bytes, id). Sampling, not enumeration: a clean batch is evidence, not proof.",
             "Trusted: the simulator's registry (eviction policy, keep-keys per block, default-key shortcut), its chain tables and its context-side decompression of Coin/Message/Mint (these impls live in the embedder, not in this repository), the hand-written expected(t) table of skip sites, the (k+1) mod (2^24-1) successor model, postcard."),
 }
 
